@@ -10,6 +10,7 @@ use std::collections::vec_deque::{Iter, VecDeque};
 use std::collections::HashMap;
 use std::convert::{From, TryFrom, TryInto};
 use std::pin::Pin;
+use std::io::ErrorKind;
 use vstd::std_specs::iter::IteratorSpec;
 verus! {
 global size_of usize == 8;
@@ -218,10 +219,6 @@ pub uninterp spec fn pq_tried(q: Pin<Box<ZmqFramedWrite>>) -> Seq<Message>;
 fn assumed_pinned_try_send(q: &mut Pin<Box<ZmqFramedWrite>>, item: Message) -> (r: ZmqResult<()>)
     ensures pq_tried(*final(q)) == pq_tried(*old(q)).push(item),
 { unimplemented!() }
-/// D5 (expression): `e.kind() == ErrorKind::BrokenPipe` on an external std::io::Error.  ASSUMED: a pure test.
-#[verifier::external_body]
-fn assumed_is_broken_pipe(e: &std::io::Error) -> (r: bool)
-{ unimplemented!() }
 
 /// the only errors `send` may report: not an I/O error of one connection, not a full buffer of one connection
 pub open spec fn fatal_for_publish(e: ZmqError) -> bool {
@@ -274,8 +271,6 @@ impl PubSocket {
 //@ inherent
 //@ subst-re "subscriber\s*\.send_queue\s*\.as_mut\(\)\s*\.try_send\("
 //@|    assumed_pinned_try_send(&mut subscriber.send_queue,
-//@ subst "e.kind() == ErrorKind::BrokenPipe"
-//@|    assumed_is_broken_pipe(&e)
 //@ ret r
 //@ spec
 //@|        requires message.fr().len() >= 1,
@@ -409,8 +404,6 @@ impl XPubSocket {
 //@ inherent
 //@ subst-re "subscriber\s*\.send_queue\s*\.as_mut\(\)\s*\.try_send\("
 //@|    assumed_pinned_try_send(&mut subscriber.send_queue,
-//@ subst "e.kind() == ErrorKind::BrokenPipe"
-//@|    assumed_is_broken_pipe(&e)
 //@ ret r
 //@ spec
 //@|        requires message.fr().len() >= 1,
